@@ -142,6 +142,7 @@ pub fn prog_has_stalls(p: &Program) -> bool {
         })
         || p.threads.iter().flatten().any(|o| match o {
             Op::Thunk { eff, .. } | Op::Task { eff, .. } => eff.sleep_ms > 0,
+            Op::Sleep { ms } => *ms > 0,
             _ => false,
         })
 }
